@@ -197,7 +197,7 @@ def isolation_obligations(tier):
             eng.globals["component_factory"] = E.VClass("TypesFactory")
             eng.globals["tzp"] = E.VClass("TZP")
             factory = z3.Const("factory", E.Ref)
-            eng.contracts["TypesFactory.for_property"] = lambda e, s, a, k: [(s, E.VRef(factory))]
+            eng.contracts["TypesFactory.for_property"] = comp.exact_arity(lambda e, s, a, k: [(s, E.VRef(factory))], 2, "types_factory.for_property(name)")
             dec_n = [0]
 
             def ref_from_ical(engine, s, args, kw):
